@@ -410,6 +410,16 @@ class NumpyModel:
                 if op:
                     return I.opaque(f"{last} of an opaque value ({op[0].reason})", node)
                 return f(*args, **kwargs)
+        m_ = _re_ufunc.match(path)
+        if m_ and not kwargs:
+            r_ = self._ufunc_method(m_.group(1), m_.group(2), args, node)
+            if r_ is not _NOPE:
+                return r_
+        if root == "bisect" and last in ("bisect_left", "bisect_right", "bisect") and len(args) == 2 and not kwargs:
+            seq = args[0]
+            arr = seq if isinstance(seq, np.ndarray) else mkarr([cell(x) for x in seq]) if isinstance(seq, (list, tuple)) else None
+            if arr is not None and arr.ndim == 1:
+                return self.np_searchsorted(arr, args[1], side="left" if last == "bisect_left" else "right")
         if root == "math" and last in _MATH_AS_NUMPY and not kwargs:
             # the math module on scalars: same real functions as their NumPy namesakes
             f = getattr(self, "np_" + _MATH_AS_NUMPY[last], None)
@@ -639,6 +649,9 @@ class NumpyModel:
     def b_set(self, node, x=()):
         return set(_h(v) for v in self.I.iterate(x, node))
 
+    def b_frozenset(self, node, x=()):
+        return frozenset(_h(v) for v in self.I.iterate(x, node))
+
     def b_str(self, node, x=""):
         from .interp import _fmt
         return _fmt(x)
@@ -855,7 +868,11 @@ class NumpyModel:
         if src is not None:
             self.I.emit("dtype-from", (src[0],))
         if like is not None and isinstance(like, np.ndarray) and dtype is None:
-            self.I.emit("dtype-from", (id(like),))
+            ids, b = [id(like)], like
+            while getattr(b, "base", None) is not None:      # a view (x[0], x[:, 1]) has the element type of the array it views
+                b = b.base
+                ids.append(id(b))
+            self.I.emit("dtype-from", tuple(ids))
 
     def np_zeros(self, shape, dtype=None):
         self._note_dtype(dtype)
@@ -1105,6 +1122,14 @@ class NumpyModel:
 
     def np_floor(self, x):
         return self._round_fn("floor", x)
+
+    def np_mod(self, a, b):
+        return self.I.binop(_ast.Mod(), a if isinstance(a, np.ndarray) else cell(a), b if isinstance(b, np.ndarray) else cell(b), None, None)
+
+    np_remainder = np_mod
+
+    def np_floor_divide(self, a, b):
+        return self.I.binop(_ast.FloorDiv(), a if isinstance(a, np.ndarray) else cell(a), b if isinstance(b, np.ndarray) else cell(b), None, None)
 
     def np_ceil(self, x):
         return self._round_fn("ceil", x)
@@ -1360,6 +1385,64 @@ class NumpyModel:
         self.I.facts.append(("perm", cs, tuple(perm)))
         return np.array(list(perm), dtype=object)
 
+    def _ufunc_method(self, uf, method, args, node):
+        """numpy.<ufunc>.outer / .accumulate / .reduce on one-dimensional data"""
+        I = self.I
+        arrs = [self.np_asarray(a) for a in args]
+        if any(not isinstance(a, np.ndarray) or a.ndim != 1 for a in arrs):
+            return _NOPE
+
+        def op(x, y):
+            if uf in _UFUNC_CMP:
+                return I.compare1(_OPS[_UFUNC_CMP[uf]], x, y, node)
+            if uf == "add":
+                return x + y
+            if uf == "subtract":
+                return x - y
+            if uf == "multiply":
+                return x * y
+            return self.np_maximum(x, y) if uf == "maximum" else self.np_minimum(x, y)
+        if method == "outer" and len(arrs) == 2:
+            a, b = arrs
+            cellsv = [[op(x, y) for y in b] for x in a]
+            flat = [c for row in cellsv for c in row]
+            if uf in _UFUNC_CMP:
+                if all(isinstance(c, (bool, np.bool_)) for c in flat):
+                    return np.array([[bool(c) for c in row] for row in cellsv], dtype=bool).reshape(len(a), len(b))
+                out = np.empty((len(a), len(b)), dtype=object)
+                for i, row in enumerate(cellsv):
+                    for j, c in enumerate(row):
+                        out[i, j] = c if isinstance(c, Guard) else Guard("const", bool(c))
+                return out
+            return mkarr(cellsv) if len(a) and len(b) else np.empty((len(a), len(b)), dtype=object)
+        if method in ("accumulate", "reduce") and len(arrs) == 1 and uf not in _UFUNC_CMP:
+            a = arrs[0]
+            if not len(a):
+                return _NOPE
+            acc, out = a[0], [a[0]]
+            for x in a[1:]:
+                acc = op(acc, x)
+                out.append(acc)
+            return mkarr(out) if method == "accumulate" else acc
+        return _NOPE
+
+    def np_take(self, a, idx, axis=None, **kw):
+        a = self.np_asarray(a)
+        if isinstance(idx, (SymIdx, SymArr)) or isinstance(a, (SymArr,)):
+            raise Unsupported("take with a data-dependent index vector")
+        scalar = not isinstance(idx, (np.ndarray, list, tuple))
+        ii = np.asarray(idx, dtype=object)
+        if not all(isinstance(i, (int, np.integer)) or (isinstance(i, E) and i.is_int()) for i in ii.flat):
+            raise Unsupported("take with data-dependent indices")
+        conc = np.empty(ii.shape, dtype=int)
+        for k in np.ndindex(*ii.shape):
+            conc[k] = int(ii[k]) if not isinstance(ii[k], E) else int(ii[k].cval())
+        try:
+            r = np.take(a, conc, axis=None if axis is None else int(axis))
+        except IndexError as ex:
+            raise _raise("IndexError", None, str(ex))
+        return r[()] if scalar and r.ndim == 0 else r
+
     def _model_order(self, row):
         """stable ascending order of a row of symbolic cells at the model point; the order facts it rests on are logged as decisions"""
         vals = [self.I.model_val(c) for c in row]
@@ -1575,6 +1658,9 @@ class NumpyModel:
                 if I_.model is not None and name == "random":
                     # model-point mode: the variates are symbols of their own, positive and below one, with numeric stand-ins by position
                     size = a[0] if a else k2.get("size")
+                    buf = k2.get("out")
+                    if buf is not None and isinstance(buf, np.ndarray) and size is None:
+                        size = tuple(buf.shape)
                     shape = () if size is None else (tuple(int(cell(x).cval()) if not isinstance(x, int) else x for x in size) if isinstance(size, (tuple, list)) else (int(cell(size).cval()) if not isinstance(size, int) else size,))
                     call = rng.attrs["calls"]
                     out = np.empty(shape, dtype=object)
@@ -1584,6 +1670,9 @@ class NumpyModel:
                         I_.model_uatoms[at] = (call, flat)
                         I_.model[at] = I_.model_u.get((call, flat), 0.4142)
                         out[ix] = ue
+                    if buf is not None and isinstance(buf, np.ndarray):
+                        buf[...] = out
+                        return buf
                     return out if shape else out[()]
                 return SymArr("rng." + name, (keyof(seed), rng.attrs["calls"], a, tuple(sorted((k_, keyof(v_)) for k_, v_ in k2.items()))))
             return Native("rng." + name, f)
@@ -1736,6 +1825,9 @@ class NumpyModel:
 
 _NOPE = object()
 # pure NumPy functions that may be folded on constant arguments when no model exists
+import re as _re_mod
+_re_ufunc = _re_mod.compile(r"^numpy\.(less|less_equal|greater|greater_equal|equal|not_equal|add|subtract|multiply|maximum|minimum)\.(outer|accumulate|reduce)$")
+_UFUNC_CMP = {"less": "Lt", "less_equal": "LtE", "greater": "Gt", "greater_equal": "GtE", "equal": "Eq", "not_equal": "NotEq"}
 _MATH_AS_NUMPY = {"cos": "cos", "sin": "sin", "tan": "tan", "acos": "arccos", "asin": "arcsin", "atan2": "arctan2", "cosh": "cosh", "sinh": "sinh",
                   "tanh": "tanh", "sqrt": "sqrt", "exp": "exp", "expm1": "expm1", "log": "log", "fabs": "abs", "floor": "floor", "ceil": "ceil",
                   "isnan": "isnan", "hypot": "hypot", "pow": "power", "isclose": "isclose", "isfinite": "isfinite", "isinf": "isinf",
